@@ -28,13 +28,16 @@ LEVEL_NOTE = ("Theorem C05_heap_inv_sublang (valid_message = VOk in every reacha
               "NewStruct, NewUInt8..64List, NewBitList, NewPointerList, NewVoidList, NewData/NewText; ALL data setters "
               "(SetUint8..64, SetBit on structs and on List.Struct members; UInt8..64List.Set on primitive and composite lists; "
               "BitList.Set); the within-message pointer ops Struct.SetPtr (on structs and on list members), PointerList.Set "
-              "(pointer and composite lists), Message.SetRoot with a whole object as source (null, empty-struct, near, far+pad, "
-              "double-far+pad, overwrites; composite targets point at the tag word); List.Struct (member handles) and the "
-              "read-only accessors. Run-time premise plain_run: the SOURCE handle of a pointer setter is never a list member "
-              "(that case is a copy path). NOT covered by the theorem, only by the runs (extracted valid_message + spec "
-              "decoder on the real bytes of every generated program): all copy paths of writePtr (SetStruct, CopyFrom, list "
-              "members as sources, cross-message), capabilities, reopen, the handle-creating read ops root / sptr / plat "
-              "(need readPtr tied to resolve_ptr), arenas without a root word. marshal_header_ok is C14's.")
+              "(pointer and composite lists), Message.SetRoot with a whole object as source (null, empty-struct, capability, "
+              "near, far+pad, double-far+pad, overwrites; composite targets point at the tag word); capabilities (NewInterface, "
+              "AddCap, capability pointers); the handle-creating read ops Message.Root, Struct.Ptr, PointerList.At, List.Struct "
+              "(read_slot: readPtr at a table slot returns a view of the table, any read/depth limit); reopen; the read-only "
+              "accessors; list members WITHOUT pointer section as sources of the pointer setters (List.Struct of a UInt8..64List "
+              "or of a pointer-free composite list: copied into a fresh padded struct, write_ptr_member_data). Run-time premise "
+              "plain_run: the SOURCE handle of a pointer setter is never a list member with a pointer section (a deep copy). "
+              "NOT covered by the theorem, only by the runs (extracted valid_message + spec decoder on the real bytes of every "
+              "generated program): the deep-copy paths of writePtr (SetStruct, CopyFrom, list members with pointers as "
+              "sources, cross-message), arenas without a root word. marshal_header_ok is C14's.")
 DESIGN_REF = "DESIGN.md section 6, C05"
 
 classify = bc.classify
